@@ -71,20 +71,48 @@ impl<K: View, V> HashMap<K, V> {
             final(self)@ == old(self)@.remove(k@),
             r == (if old(self)@.contains_key(k@) { Some(old(self)@[k@]) } else { None }),
     { unimplemented!() }
+    // The rest of the commonly used map API (same source), so that an edit of the
+    // extracted code that switches to another method still composes.
+    /// `HashMap::insert`: the previous value is returned
+    #[verifier::external_body]
+    pub fn insert(&mut self, k: K, v: V) -> (r: Option<V>)
+        ensures
+            final(self)@ == old(self)@.insert(k@, v),
+            r == (if old(self)@.contains_key(k@) { Some(old(self)@[k@]) } else { None }),
+    { unimplemented!() }
+    /// `HashMap::contains_key`
+    #[verifier::external_body]
+    pub fn contains_key(&self, k: &K) -> (r: bool)
+        ensures r == self@.contains_key(k@),
+    { unimplemented!() }
+    /// `HashMap::len` — the number of entries (it fits a usize)
+    #[verifier::external_body]
+    pub fn len(&self) -> (r: usize)
+        ensures r == self@.len(),
+    { unimplemented!() }
+    /// `HashMap::is_empty`
+    #[verifier::external_body]
+    pub fn is_empty(&self) -> (r: bool)
+        ensures r == (self@ =~= Map::<K::V, V>::empty()),
+    { unimplemented!() }
+    /// `HashMap::clear`
+    #[verifier::external_body]
+    pub fn clear(&mut self)
+        ensures final(self)@ == Map::<K::V, V>::empty(),
+    { unimplemented!() }
 }
 
-/// R12: `$m.entry($k).and_modify(|c| B).or_insert($v);` (result unused) with the
-/// closure taking the value by `&mut` is rewritten, per site, to this helper with
-/// the closure transliterated to by-value (`|c: V| -> V { let mut c = c; B'; c }`,
-/// B' = B with `*c` read as `c`).  std meaning (map.rs `Entry::and_modify`,
-/// `Entry::or_insert`): occupied -> the closure is applied to the stored value;
-/// vacant -> `$v` is inserted; no other key changes.
+/// R12: `$m.entry($k).and_modify($f).or_insert($v);` (result unused).  The closure
+/// `$f` (it takes the stored value by `&mut`) stays extracted code; this contract
+/// only quantifies over ITS pre-/post-condition.  std meaning (map.rs
+/// `Entry::and_modify`, `Entry::or_insert`): occupied -> the closure is applied
+/// once to the stored value; vacant -> `$v` is inserted; no other key changes.
 #[verifier::external_body]
-pub fn hm_entry_modify_or_insert<K: View, V, F: FnOnce(V) -> V>(m: &mut HashMap<K, V>, k: K, f: F, v: V)
+pub fn hm_entry_and_modify_or_insert<K: View, V, F: FnOnce(&mut V)>(m: &mut HashMap<K, V>, k: K, f: F, v: V)
     requires
-        old(m)@.contains_key(k@) ==> f.requires((old(m)@[k@],)),
+        old(m)@.contains_key(k@) ==> (forall|c: &mut V| *c == old(m)@[k@] ==> #[trigger] f.requires((c,))),
     ensures
-        old(m)@.contains_key(k@) ==> f.ensures((old(m)@[k@],), final(m)@[k@])
+        old(m)@.contains_key(k@) ==> (exists|c: &mut V| *c == old(m)@[k@] && *final(c) == final(m)@[k@] && #[trigger] f.ensures((c,), ()))
             && final(m)@ == old(m)@.insert(k@, final(m)@[k@]),
         !old(m)@.contains_key(k@) ==> final(m)@ == old(m)@.insert(k@, v),
 { unimplemented!() }
@@ -97,6 +125,35 @@ pub struct HashSet<T> { inner: std::collections::HashMap<u64, T> }
 impl<T: View> View for HashSet<T> {
     type V = Set<T::V>;
     uninterp spec fn view(&self) -> Set<T::V>;
+}
+impl<T: View> HashSet<T> {
+    // commonly used set API (std hash/set.rs), so that an edit of the extracted
+    // code that uses another method still composes
+    /// `HashSet::contains`
+    #[verifier::external_body]
+    pub fn contains(&self, x: &T) -> (r: bool)
+        ensures r == self@.contains(x@),
+    { unimplemented!() }
+    /// `HashSet::insert`: true iff the value was not present
+    #[verifier::external_body]
+    pub fn insert(&mut self, x: T) -> (r: bool)
+        ensures final(self)@ == old(self)@.insert(x@), r == !old(self)@.contains(x@),
+    { unimplemented!() }
+    /// `HashSet::remove`: true iff the value was present
+    #[verifier::external_body]
+    pub fn remove(&mut self, x: &T) -> (r: bool)
+        ensures final(self)@ == old(self)@.remove(x@), r == old(self)@.contains(x@),
+    { unimplemented!() }
+    /// `HashSet::len`
+    #[verifier::external_body]
+    pub fn len(&self) -> (r: usize)
+        ensures r == self@.len(),
+    { unimplemented!() }
+    /// `HashSet::is_empty`
+    #[verifier::external_body]
+    pub fn is_empty(&self) -> (r: bool)
+        ensures r == (self@ =~= Set::<T::V>::empty()),
+    { unimplemented!() }
 }
 impl<T: View> Clone for HashSet<T> {
     /// `HashSet::clone`: same elements
@@ -154,6 +211,28 @@ impl<K: View, V> BTreeMap<K, V> {
         ensures
             final(self)@ == old(self)@.remove(k@),
             r == (if old(self)@.contains_key(k@) { Some(old(self)@[k@]) } else { None }),
+    { unimplemented!() }
+    /// `BTreeMap::get`
+    #[verifier::external_body]
+    pub fn get<'a>(&'a self, k: &K) -> (r: Option<&'a V>)
+        ensures r == (if self@.contains_key(k@) { Some(&self@[k@]) } else { None }),
+    { unimplemented!() }
+    /// `BTreeMap::insert`: the previous value is returned
+    #[verifier::external_body]
+    pub fn insert(&mut self, k: K, v: V) -> (r: Option<V>)
+        ensures
+            final(self)@ == old(self)@.insert(k@, v),
+            r == (if old(self)@.contains_key(k@) { Some(old(self)@[k@]) } else { None }),
+    { unimplemented!() }
+    /// `BTreeMap::is_empty`
+    #[verifier::external_body]
+    pub fn is_empty(&self) -> (r: bool)
+        ensures r == (self@.len() == 0),
+    { unimplemented!() }
+    /// `BTreeMap::clear`
+    #[verifier::external_body]
+    pub fn clear(&mut self)
+        ensures final(self)@ == Map::<K::V, V>::empty(),
     { unimplemented!() }
     /// R12: `$m.entry($k).or_insert($v)` (btree/map/entry.rs): the stored value
     /// if the key is present, otherwise `$v` is inserted; a `&mut` to the value in
@@ -349,6 +428,11 @@ pub struct Secret { _p: () }
 /// websites copied out of the secret; not part of C20's document view.  Opaque.
 #[verifier::external_body]
 pub struct ExtraFields { _p: () }
+impl Clone for ExtraFields {
+    /// `#[derive(Clone)]` on ExtraFields (search.rs:279); opaque, so no contract
+    #[verifier::external_body]
+    fn clone(&self) -> (r: Self) { unimplemented!() }
+}
 impl From<&Secret> for ExtraFields {
     /// search.rs:288 `impl From<&Secret> for ExtraFields` — a pure function of the secret
     #[verifier::external_body]
